@@ -96,6 +96,12 @@ SeedOps ==
                               [op |-> "AddInterface", s |-> "n1/ns1", name |-> "i1", itype |-> "TrunkPort"],
                               [op |-> "AddNode", name |-> "n2", site |-> "S1", ntype |-> "Server", rp |-> <<>>],
                               [op |-> "AddComponent", n |-> "n2", name |-> "c1", model |-> "nic2"] >>
+      \* two interfaces of one node that carry the same name (in different scopes), each connected to a service
+      [] Seed = "twin"  -> << N("n1", "S1"), C("n1", "c1", "nic1"), C("n1", "c2", "nic1"), N("n2", "S1"),
+                              [op |-> "AddService", name |-> "s1", nstype |-> "L2Bridge", site |-> "", rp |-> <<>>, ifs |-> <<"n1/c1/n1-c1-l2ovs/c1-p1">>],
+                              [op |-> "AddService", name |-> "s2", nstype |-> "L2Bridge", site |-> "", rp |-> <<>>, ifs |-> <<"n1/c2/n1-c2-l2ovs/c2-p1">>],
+                              [op |-> "Rename", p |-> "n1/c1/n1-c1-l2ovs/c1-p1", new |-> "data"],
+                              [op |-> "Rename", p |-> "n1/c2/n1-c2-l2ovs/c2-p1", new |-> "data"] >>
       \* a richer seed: sub-interface connected to a service, a facility, two peered services
       [] Seed = "rich"  -> << N("n1", "S1"), C("n1", "c1", "nic2"), N("n2", "S2"), C("n2", "c1", "nic2"),
                               [op |-> "AddSubInterface", i |-> "n1/c1/n1-c1-l2ovs/c1-p2", name |-> "sub1", vlan |-> "100"],
